@@ -158,6 +158,13 @@ class Sym:
             return bool(self.values[name])
         return SBool(z3.Bool(name))
 
+    def float(self, name):
+        """a symbolic Python float (uninterpreted); replayed with representative values"""
+        self.decls[name] = ('float',)
+        if self.values is not None:
+            return float(self.values[name])
+        return extern.SFloat.named(name)
+
     def view(self, name, n=None):
         """a bit view of symbolic length name.n (or the given length) and symbolic content"""
         self.decls[name] = ('view',)
@@ -184,6 +191,8 @@ class Sym:
                 vals[name] = v.as_long()
             elif d[0] == 'bool':
                 vals[name] = z3.is_true(model.eval(z3.Bool(name), model_completion=True))
+            elif d[0] == 'float':
+                vals[name] = 1.5        # the float sort is uninterpreted: the bounded stand-in supplies real floats
             elif d[0] == 'view':
                 n = model.eval(z3.Int(name + '.n'), model_completion=True).as_long()
                 if n > max_len:
@@ -365,6 +374,9 @@ def same(x, y, label, goals, seen=None):
         return
     if isinstance(x, (ClassVal, FuncVal)) or isinstance(y, (ClassVal, FuncVal)):
         goals.add(label, x is y)
+        return
+    if isinstance(x, extern.SFloat) and isinstance(y, extern.SFloat):
+        goals.add(label, sym.mk_bool(x.term == y.term))
         return
     if isinstance(x, float) and isinstance(y, float):
         goals.add(label, x == y or (x != x and y != y))
